@@ -27,10 +27,10 @@ func (a vaddr) String() string  { return strconv.Itoa(int(a)) }
 
 type intHeap []int64
 
-func (h intHeap) Len() int           { return len(h) }
-func (h intHeap) Less(i, j int) bool { return h[i] < h[j] }
-func (h intHeap) Swap(i, j int)      { h[i], h[j] = h[j], h[i] }
-func (h *intHeap) Push(x interface{})        { *h = append(*h, x.(int64)) }
+func (h intHeap) Len() int            { return len(h) }
+func (h intHeap) Less(i, j int) bool  { return h[i] < h[j] }
+func (h intHeap) Swap(i, j int)       { h[i], h[j] = h[j], h[i] }
+func (h *intHeap) Push(x interface{}) { *h = append(*h, x.(int64)) }
 func (h *intHeap) Pop() interface{} {
 	old := *h
 	n := len(old)
@@ -91,7 +91,7 @@ func runHeap(ops []string) string {
 
 // goroutineStates returns the scheduler state ("select", "chan send", "running", ...) of
 // every goroutine whose stack mentions marker.
-func goroutineStates(marker string) []string {
+func goroutineStates(markers ...string) []string {
 	buf := make([]byte, 1<<20)
 	for {
 		n := runtime.Stack(buf, true)
@@ -103,7 +103,13 @@ func goroutineStates(marker string) []string {
 	}
 	var res []string
 	for _, blk := range strings.Split(string(buf), "\n\n") {
-		if !strings.Contains(blk, marker) {
+		hit := false
+		for _, m := range markers {
+			if strings.Contains(blk, m) {
+				hit = true
+			}
+		}
+		if !hit {
 			continue
 		}
 		l := blk
@@ -174,7 +180,7 @@ func nonBlockingRead(conn *turbotunnel.QueuePacketConn, size int) string {
 	conn.QueueIncoming([]byte{0x5e}, sentinelAddr)
 	select {
 	case r := <-done:
-		if r.err == nil && r.addr == sentinelAddr && r.n == 1 {
+		if r.err == nil && r.addr == sentinelAddr {
 			return "B"
 		}
 		return "!blocked-then:" + printRead(r)
@@ -283,7 +289,11 @@ func main() {
 		case "heap":
 			return runHeap(wire.List(args[1]))
 		case "qc":
-			return runQC(wire.List(args[2]))
+			var ops []string
+			for _, f := range args[2:] {
+				ops = append(ops, wire.List(f)...)
+			}
+			return runQC(ops)
 		case "cap":
 			conn := turbotunnel.NewQueuePacketConn(vaddr(0), time.Hour)
 			return strconv.Itoa(cap(conn.OutgoingQueue(vaddr(1))))
